@@ -104,6 +104,7 @@ type Loop struct {
 	headState *State
 	invAssumed bool
 	visited    *Cell
+	preState   *State // state on first arrival at the header (before havoc): loopentry(e)
 }
 
 func (f *Frame) note(s string) { f.root.notes[f.name+": "+s] = true }
@@ -631,6 +632,7 @@ func (f *Frame) enterLoop(l *Loop, st *State) *State {
 			}
 		}
 	}
+	l.preState = st.clone()
 	// establishment
 	env := f.specEnv(st)
 	env.loop = l
